@@ -1,4 +1,4 @@
-"""C14 -- rope's view of source text agrees with the tokenizer (RCA rules R14.1-R14.4)."""
+"""C14 -- rope's view of source text agrees with the tokenizer (RCA rules R14.1-R14.8)."""
 from __future__ import annotations
 
 import ast
@@ -6,7 +6,7 @@ import tokenize
 from typing import Dict, List, Optional, Set, Tuple
 
 from .. import fold, rca
-from ..core import AnalysisError, call_name, calls_in, const_str, walk_local
+from ..core import AnalysisError, call_name, calls_in, const_str, walk_local, is_self_attr
 
 EXPLANATION = (
     "R14.1: every replacement made by simplify.real_code has a symbolic length equal to the replaced span (linear "
@@ -17,7 +17,8 @@ EXPLANATION = (
     "before scanning).  R14.4: every bracket counter of the text scanners classifies all of ( [ { as opening and all "
     "of ) ] } as closing (sibling agreement with the tokenizer's paired delimiters).  R14.5: where a scanner captures the "
     "run of backslashes before a token, 'escaped' is decided by the parity of the run's length.  R14.6: the line tables "
-    "and line splitters of the text scanners delimit lines by explicit '\\n', never by str.splitlines().  Line-index inversion, the "
+    "and line splitters of the text scanners delimit lines by explicit '\\n', never by str.splitlines().  R14.7: a trailing backslash sets the continuation flag only under a test that the last token -- a "
+    "variable bound in that function -- is not '#'.  R14.8 (=R20.5): the word finder consults the hard-keyword oracle only.  Line-index inversion, the "
     "logical-line algorithm itself and the word/primary scanners are arithmetic over strings and are not decided."
 )
 ASSUMPTIONS = ["tokenize's own Comment pattern and _all_string_prefixes() are the oracle for the token language"]
@@ -232,6 +233,45 @@ def check(ctx, res) -> None:
                         "a quote/bracket after an even run (escaped backslashes, e.g. 'C:\\\\') is ignored, the scanner stays inside the string and all following "
                         "lines are merged into one logical line")
     res.floor("R14.5", "escape decisions on a captured backslash run", n5, 1)
+
+    # ---- R14.7 a backslash at the end of a physical line continues the logical line only when it is not inside a
+    # comment: every assignment of a continuation flag under an `endswith("\\")` test is also guarded by a test that
+    # the scanner's last token -- a variable BOUND IN THIS FUNCTION -- is not the comment marker
+    n7 = 0
+    for f in sorted(idx.functions.values(), key=lambda f: f.qualname):
+        if f.unit.modname not in ("rope.base.codeanalyze",):
+            continue
+        cfg = None
+        local_names = {t.id for x in walk_local(f.node) if isinstance(x, (ast.Assign, ast.AugAssign, ast.AnnAssign, ast.For))
+                       for tt in ((x.targets if isinstance(x, ast.Assign) else [x.target])) for t in ast.walk(tt) if isinstance(t, ast.Name)}
+        local_names |= {a.arg for a in f.node.args.args + f.node.args.kwonlyargs}
+        for st in walk_local(f.node):
+            if not (isinstance(st, ast.Assign) and isinstance(st.value, ast.Constant) and st.value.value is True
+                    and any(is_self_attr(t) for t in st.targets)):
+                continue
+            cfg = cfg or CFG(f.node)
+            nd = cfg.node_of_stmt(st)
+            if nd is None:
+                continue
+            gs = cfg.guards(nd.id)
+            if not any(pol and isinstance(t, ast.Call) and call_name(t) == "endswith" and t.args and const_str(t.args[0]) == "\\" for t, pol in gs):
+                continue
+            n7 += 1
+            marker = [(t, pol) for t, pol in gs if isinstance(t, ast.Compare) and len(t.ops) == 1 and const_str(t.comparators[0]) == "#"
+                      and isinstance(t.left, ast.Name) and ((isinstance(t.ops[0], ast.NotEq) and pol) or (isinstance(t.ops[0], ast.Eq) and not pol))]
+            ok = bool(marker) and all(t.left.id in local_names for t, _ in marker)
+            why = ("no dominating test that the last token is not '#'" if not marker else
+                   f"the tested name `{marker[0][0].left.id}` is never bound in {f.name} (it resolves to a module-level name, so the test is constant)")
+            res.add("R14.7", f"{f.qualname.split('.', 2)[-1]}|continuation", ok, f"{f.unit.rel}:{st.lineno}",
+                    "explicit continuation is recognised only when the line does not end in a comment" if ok else
+                    f"{f.name} treats a trailing backslash as a line continuation although {why}: a comment ending in a backslash "
+                    "(`x = 1  # C:\\dir\\`) merges the next statement into the same logical line, unlike the tokenizer", function=f.qualname)
+    res.floor("R14.7", "explicit-continuation decisions", n7, 1)
+
+    # ---- R14.8 (=R20.5) the word finder knows hard keywords only
+    from .common import hard_keyword_rule
+
+    hard_keyword_rule(ctx, res, "R14.8")
 
 
 def line_table_rule(ctx, res, rule: str) -> None:
